@@ -17,7 +17,7 @@ from ..core import Violation
 from ..tlaparse import parse_dump, to_json
 
 SUFFIX = {"": "", "s1": "SNAPSHOT", "s2": "beta1", "s3": "rc2"}
-OTHER = {"x": "7.x", "y": "my-feature", "z": "v7.1"}
+OTHER = {"x": "7.x", "y": "my-feature", "z": "v7.1", "p": "backport/7.3", "q": "alice/8"}
 
 
 def branch_str(b):
@@ -255,7 +255,7 @@ def run(ctx, out):
         out.add_case(("bm", sorted(map(branch_str, it["B"])), it["v"]), nontrivial=len(it["B"]) > 1)
     # ---- real git repositories
     git_items = []
-    k = 24 if ctx.quick else 250
+    k = 40 if ctx.quick else 400
     root = os.path.join(tlc.scratch("c15git"), "case")
     full = [s for s in states if s["v"]["k"] == "full"]
     for gi in range(k):
@@ -265,12 +265,19 @@ def run(ctx, out):
         T = [dict(x) for x in c["B"] if x["k"] == "v"] if rnd.random() < 0.7 else []
         v = dict(a["v"]) if rnd.random() < 0.8 else dict(rnd.choice(states)["v"])
         has_remote = rnd.random() < 0.5
+        if has_remote and v["k"] == "full" and rnd.random() < 0.6:
+            # adversarial unrelated branch names: a path-like branch whose LAST component looks like the wanted version
+            OTHER["p"] = "backport/%d.%d" % (v["maj"], v["min"])
+            OTHER["q"] = "alice/%d" % v["maj"]
+            for oid in ("p", "q"):
+                if rnd.random() < 0.7:
+                    R.append({"k": "other", "maj": -1, "min": -1, "pat": -1, "suf": oid})
         if not has_remote:
             R = []
             if rnd.random() < 0.5:
                 L = [dict(x) for x in a["B"]]
         o = run_update(root, has_remote, R, L, T, v, rnd)
-        git_items.append({"id": "g%d" % gi, "kind": "up", "hasRemote": has_remote, "R": R, "L": L, "T": T, "v": v, "out": o})
+        git_items.append({"id": "g%d" % gi, "kind": "up", "hasRemote": has_remote, "R": R, "L": L, "T": T, "v": v, "out": o, "other_names": {"p": OTHER["p"], "q": OTHER["q"]}})
         out.add_case(("up", has_remote, sorted(map(branch_str, R)), sorted(map(branch_str, L)), sorted(map(branch_str, T)), v))
     shutil.rmtree(root, ignore_errors=True)
     out.sample({"git": {"remote": sorted(map(branch_str, git_items[0]["R"])), "local": sorted(map(branch_str, git_items[0]["L"])), "tags": sorted(map(branch_str, git_items[0]["T"])), "version": git_items[0]["v"], "checked_out": git_items[0]["out"]}})
@@ -296,6 +303,7 @@ def replay(ctx, case):
     if it["kind"] == "bm":
         it["out"] = call_best_match(it["B"], it["v"], rnd)
     else:
+        OTHER.update(it.get("other_names", {}))
         it["out"] = run_update(os.path.join(tlc.scratch("c15git"), "case"), it["hasRemote"], it["R"], it["L"], it["T"], it["v"], rnd)
     v = tracecheck.validate("BranchMatch", "TraceBranchMatch", "TraceBranchMatch.cfg", [it], name="c15replay")
     for tid, fails in v.l1.items():
